@@ -34,6 +34,53 @@ async fn double_delete(net: &Net) -> Case {
     r.case("C11Case", "double_delete", f, json!({}))
 }
 
+/// the row has two deletion records that name different versions, the more recent record names the
+/// OLDER version: A creates x; B, C pull; C updates; B takes the new version; B deletes it; one second
+/// later A deletes the old version; B<-A (B stores both records); B<-C (C still offers the new version)
+async fn two_versions(net: &Net) -> Case {
+    let mut r = Runner::new(net, 3).await;
+    two_versions_history(&mut r, &[1], 1, 0, true, false, &[(1, 0), (1, 2)]).await;
+    let f = r.settle(T0 + 2 * DAY, 6).await;
+    r.case("C11Case", "two_versions", f, json!({}))
+}
+
+/// generated: deletions of different versions of one row on different peers (the update was seen by
+/// only some peers), either record the more recent one, same day or next day, then a random pull order
+async fn two_versions_case(net: &Net, rng: &mut Rng) -> Case {
+    let n = 3 + rng.below(2) as usize;
+    let mut r = Runner::new(net, n).await;
+    let updater = n - 1;
+    // who has seen the update (besides the updater): a non-empty proper subset of the others
+    let others: Vec<usize> = (0..updater).collect();
+    let k = 1 + rng.below(others.len() as u64 - 1) as usize;
+    let mut seen: Vec<usize> = others.clone();
+    while seen.len() > k { let i = rng.below(seen.len() as u64) as usize; seen.remove(i); }
+    let unseen: Vec<usize> = others.iter().cloned().filter(|p| !seen.contains(p)).collect();
+    let del_new = if rng.chance(1, 3) { updater } else { *rng.pick(&seen) };
+    let del_old = *rng.pick(&unseen);
+    let old_later = rng.chance(2, 3);
+    let next_day = rng.chance(1, 3);
+    let mut order = vec![];
+    for _ in 0..(2 + rng.below(6)) {
+        let dst = rng.below(n as u64) as usize;
+        let src = (dst + 1 + rng.below(n as u64 - 1) as usize) % n;
+        order.push((dst, src));
+    }
+    two_versions_history(&mut r, &seen, del_new, del_old, old_later, next_day, &order).await;
+    let f = r.settle(T0 + 3 * DAY, 6).await;
+    r.case("C11Case", "two_versions_gen", f, json!({"seen": seen, "del_new": del_new, "del_old": del_old, "old_later": old_later, "next_day": next_day, "order": order}))
+}
+
+/// 60 rows created and 55 of them deleted on one day, served in answers of ~4 KiB: the deletion
+/// records, the row identifiers and the rows of that day each travel in several batches
+async fn batching(net: &Net) -> Case {
+    let mut r = Runner::new(net, 3).await;
+    batching_history(&mut r, 60, 55).await;
+    let f = r.settle(T0 + DAY, 4).await;
+    net.serve_buffer.store(0, std::sync::atomic::Ordering::SeqCst);
+    r.case("C11Case", "batching", f, json!({}))
+}
+
 /// one create + one delete, then a generated order of directed pulls over 3 peers
 async fn order_case(net: &Net, rng: &mut Rng, len: usize, same_day: bool) -> Case {
     let mut r = Runner::new(net, 3).await;
@@ -85,6 +132,12 @@ async fn main() {
     let net = Net::start(4, MODEL, work_root("C11")).await;
     out.push(witness(&net).await);
     out.push(double_delete(&net).await);
+    out.push(two_versions(&net).await);
+    out.push(batching(&net).await);
+    for _ in 0..scale(8, 200) {
+        let mut r = rng.fork();
+        out.push(two_versions_case(&net, &mut r).await);
+    }
     for i in 0..scale(18, 400) {
         let mut r = rng.fork();
         let len = 1 + (i % 6);
